@@ -2,6 +2,7 @@ import Evenio.Driver.Parse
 import Evenio.Model.Gates
 import Evenio.Model.InvPlus
 import Evenio.Driver.Probe
+import Evenio.Driver.BitSetScript
 /-! Driver: reads histories on stdin (`=== id` starts a fresh world; `>`-lines and `#`-lines are ignored; every
     other line is one operation), prints each operation followed by the model's observation lines. -/
 open Evenio
@@ -41,6 +42,25 @@ partial def loop (h : IO.FS.Stream) (w : World) (debug snap : Bool) (dead : Bool
       let dead' := lines.any fun l => l.startsWith "ub "
       loop h w' debug snap dead' inv
 
+/-- `--bitset`: scripts for the bit-set model (`=== name` starts a script with two empty registers; one output line
+    per operation line), the counterpart of `hx --bitset` -/
+partial def bitsetLoop (h : IO.FS.Stream) (cur : List String) : IO Unit := do
+  let flush (cur : List String) : IO Unit := do
+    for l in BitSetScript.run cur.reverse do IO.println l
+  let line ← h.getLine
+  if line.isEmpty then flush cur
+  else
+    let line := (line.dropEndWhile (· == '\n')).toString
+    if line.startsWith "===" then
+      flush cur
+      IO.println line
+      bitsetLoop h []
+    else if line.trimAscii.toString.isEmpty then bitsetLoop h cur
+    else bitsetLoop h (line :: cur)
+
 def main (args : List String) : IO Unit := do
+  if args.contains "--bitset" then
+    bitsetLoop (← IO.getStdin) []
+    return
   let debug := !(args.contains "--release")
   loop (← IO.getStdin) { debug := debug } debug (args.contains "--snap") false (args.contains "--inv")
